@@ -17,7 +17,7 @@ import os, re, shutil, subprocess, sys, json
 import vlib
 
 PROP_FILE = "Props/Properties_C20.v"
-WRAPS = ("read", "write", "fopen", "open", "opendir", "close", "select")
+WRAPS = ("read", "write", "fopen", "open", "opendir", "close", "select", "gettimeofday")
 BUF = 32768
 
 
@@ -622,6 +622,9 @@ def oracle_req(env, cfg, segs, impl):
     return None
 
 
+RESPONSE_FACTOR = 3
+
+
 def oracle_send(rq, impl):
     """send side: a peer that stops reading must not hold rfbHttpCheckFds longer than rfbMaxClientWait plus one
     select slice of (virtual) time"""
@@ -631,7 +634,9 @@ def oracle_send(rq, impl):
         return ("httpd does not survive a client that stops reading: %s" % cr[0], feat)
     sl = [int(l.split()[1]) for l in impl if l.startswith("slice ")]
     vw = [int(l.split()[1]) for l in impl if l.startswith("vwait ")]
-    if "slowdrip" in impl or ("d" in rq["dec"] and vw and sl and vw[0] > max(rq["sreq"], 0) + sl[0]):
+    # a client that keeps reading, slowly: the whole response must end within a fixed small multiple of rfbMaxClientWait
+    # (RESPONSE_FACTOR: the per-response deadline of notes/fix_C20_4.diff is 3 x rfbMaxClientWait) plus one select slice
+    if "slowdrip" in impl or ("d" in rq["dec"] and vw and sl and vw[0] > RESPONSE_FACTOR * max(rq["sreq"], 0) + sl[0]):
         return ("a client that reads 1 KiB per select slice keeps rfbHttpCheckFds (and with it the whole RFB service) busy for %d ms of "
                 "virtual time for one 70000-byte file; rfbMaxClientWait is %d ms" % (vw[0] if vw else -1, rq["sreq"]), dict(feat, kind="send-slow-reader"))
     if "stall" in impl:
